@@ -185,28 +185,40 @@ def secTol (ops : UOps K R T) (rule : Rule) (quota : Int) (n : Nat) (s1 : S1 K R
       | none => (tol0, work, "select", false)
   else (tol0, work, "dmax", true)
 
+/-- what the two rules decide, without the storage: the routine on the list `rows` of the rows its U-segments list
+(l.91-93 and l.123-221).  `(state of the first loop, state after the second sweep, threshold of the second rule if it
+ran, work afterwards, path tag, fuel flag)` -/
+def dropCore (ops : UOps K R T) (rule : Rule) (milu : Milu) (dropTol0 : T) (quota0 : Int) (n : Nat) (permR : Array Int)
+    (dense : Array K) (work : Array R) (rows : List Nat) : S1 K R × S2 K × Option T × Array R × String × Bool :=
+  let dropTol := if rule.nodrop then ops.negOneT else dropTol0
+  let quota : Int := if rule.nodrop then n else quota0
+  let s1 := pass1 ops milu dropTol quota permR dense rows
+  let m := s1.kept.size
+  if rule.secondary && decide (quota < (m : Int)) then
+    let r := secTol ops rule quota n s1 work
+    (s1, sweep ops milu r.1 s1.tmp m 0 { a := s1.kept, cnt := m, sum := s1.sum }, some r.1, r.2.1, r.2.2.1, r.2.2.2)
+  else (s1, { a := s1.kept, cnt := m, sum := s1.sum }, none, work, "first", true)
+
+/-- l.223-227 -/
+def finSum (ops : UOps K R T) (milu : Milu) (s : K) : K :=
+  match milu with
+  | .smilu2 => ops.fin2 s
+  | .smilu3 => ops.fin3 s
+  | _ => s
+
 /-- `ilu_[sdcz]copy_to_ucol` (return value 0: capacity suffices) -/
 def copyToUcol (ops : UOps K R T) (inp : UIn K R T) : UOut K R T :=
-  let dropTol := if inp.rule.nodrop then ops.negOneT else inp.dropTol
-  let quota : Int := if inp.rule.nodrop then inp.n else inp.quota
   let rows := segRows inp.jcol inp.nseg inp.segrep inp.repfnz inp.xsup inp.supno inp.lsub inp.xlsub
-  let s1 := pass1 ops inp.milu dropTol quota inp.permR inp.dense rows
+  let c := dropCore ops inp.rule inp.milu inp.dropTol inp.quota inp.n inp.permR inp.dense inp.work rows
+  let s1 := c.1
+  let s2 := c.2.1
   let x0 := (inp.xusub[inp.jcol]!).toNat
   let m := s1.kept.size
-  let (s2, tolo, work, path, ok) : S2 K × Option T × Array R × String × Bool :=
-    if inp.rule.secondary && decide (quota < (m : Int)) then
-      let (tol, work, path, ok) := secTol ops inp.rule quota inp.n s1 inp.work
-      (sweep ops inp.milu tol s1.tmp m 0 { a := s1.kept, cnt := m, sum := s1.sum }, some tol, work, path, ok)
-    else ({ a := s1.kept, cnt := m, sum := s1.sum }, none, inp.work, "first", true)
   let ucol := (List.range m).foldl (fun a i => a.setIfInBounds (x0 + i) (s2.a[i]!).2) inp.ucol
   let usub := (List.range m).foldl (fun a i => a.setIfInBounds (x0 + i) (s2.a[i]!).1) inp.usub
-  let sum := match inp.milu with
-    | .smilu2 => ops.fin2 s2.sum
-    | .smilu3 => ops.fin3 s2.sum
-    | _ => s2.sum
   { ucol := ucol, usub := usub, xusub := inp.xusub.setIfInBounds (inp.jcol + 1) ((x0 + s2.cnt : Nat) : Int),
-    dense := s1.dense, sum := sum, nnzUj := inp.nnzUj + s2.cnt, work := work, m1 := m, cnt := s2.cnt, s1 := s1,
-    s2 := if tolo.isSome then some s2 else none, tol := tolo, path := path, fuelOk := ok }
+    dense := s1.dense, sum := finSum ops inp.milu s2.sum, nnzUj := inp.nnzUj + s2.cnt, work := c.2.2.2.1, m1 := m, cnt := s2.cnt, s1 := s1,
+    s2 := if c.2.2.1.isSome then some s2 else none, tol := c.2.2.1, path := c.2.2.2.2.1, fuelOk := c.2.2.2.2.2 }
 
 end
 
